@@ -280,7 +280,7 @@ func (h *harness) mkdir(o op, init map[string]entry) string {
 	return d
 }
 
-var traced = []string{"openat", "rename", "renameat", "renameat2", "unlink", "unlinkat", "fchmod", "fchmodat", "chmod", "close", "write", "pwrite64", "truncate", "ftruncate", "link", "linkat", "symlinkat"}
+var traced = []string{"openat", "rename", "renameat", "renameat2", "unlink", "unlinkat", "fchmod", "fchmodat", "chmod", "close", "write", "pwrite64", "copy_file_range", "sendfile", "truncate", "ftruncate", "link", "linkat", "symlinkat"}
 
 // run the child under strace; inject = "" or "<syscall>:<N>"
 func (h *harness) strace(o op, dir, inject string) (log string, exit int, killed bool) {
@@ -491,8 +491,14 @@ func abstract(evs []sysEvent, dir string, init map[string]entry, dest string) ab
 					readonly[fd] = true
 				}
 			}
-		case "write", "pwrite64", "fchmod", "ftruncate", "close":
+		case "write", "pwrite64", "fchmod", "ftruncate", "close", "copy_file_range", "sendfile":
 			fd := strings.TrimSpace(strings.SplitN(e.args, ",", 2)[0])
+			if e.name == "copy_file_range" {
+				// copy_file_range(fd_in, off_in, fd_out, off_out, len, flags): io.Copy between two files
+				if f := strings.Split(e.args, ","); len(f) >= 3 {
+					fd = strings.TrimSpace(f[2])
+				}
+			}
 			n, ok := fdName[fd]
 			if !ok {
 				continue
